@@ -445,11 +445,18 @@ func RunCase(seed uint64, idx int, p *Profile, o *Opts, st *Stats) (cr *CaseResu
 }
 
 func pickDead(g *Gen) (EID, bool) {
-	var dead []EID
+	var dead, recycled []EID
 	for i := g.M.Epoch0; i < len(g.M.Ents); i++ {
 		if !g.M.Ents[i].Alive {
 			dead = append(dead, EID(i))
+			if _, ok := g.recycledTwin(EID(i)); ok {
+				recycled = append(recycled, EID(i))
+			}
 		}
+	}
+	// prefer stale handles whose ID is in use again
+	if len(recycled) > 0 && g.R.Chance(70) {
+		return recycled[g.R.Intn(len(recycled))], true
 	}
 	if len(dead) == 0 {
 		return 0, false
